@@ -342,6 +342,77 @@ pub fn run(ctx: &Ctx) -> i32 {
         });
         col.layer("large INT values (all permutations)", done, complete, json!({"lines": big_lines(), "statements": BIG_STMTS}));
     }
+    // REAL values incl. NaN, infinities and signed zeros: all 5040 orders of 7 lines; equality of results is the value
+    // equality of C16 (NaN = NaN, -0.0 = 0.0)
+    {
+        let rt = sut::make_tables("CREATE TABLE g(line = '^k=([a-z]+) x=(\\\\S+)$', line[1] => k TEXT, line[2] => x REAL);").unwrap();
+        let rlines = ["k=a x=NaN", "k=a x=1.5", "k=a x=2.5", "k=a x=-0.0", "k=a x=0.0", "k=b x=inf", "k=b x=NaN"];
+        let rst = ["SELECT k, MIN(x), MAX(x), COUNT(x), COUNT(DISTINCT x) FROM g GROUP BY k", "SELECT MIN(x), MAX(x), PERCENTILE(x, 0.0), PERCENTILE(x, 1.0) FROM g", "SELECT k, MIN(x), MAX(x) FROM g WHERE x > 0.0 OR x <= 0.0 GROUP BY k"];
+        let perms = permutations(7);
+        let total = (perms.len() * rst.len()) as u64;
+        let bases: Vec<Option<Vec<Vec<RVal>>>> = rst.iter().map(|s| match sut::run_batch(&rt, &sut::parse(s).unwrap(), &rlines) { Outcome::Ok(t) => Some(t.rows), _ => None }).collect();
+        let (done, complete) = par_for_budget(ctx, total, 64, |idx| {
+            let si = idx as usize % rst.len();
+            let perm = &perms[idx as usize / rst.len()];
+            col.eval(1);
+            col.nontrivial(h64(&("real", si, perm)));
+            let lines: Vec<&str> = perm.iter().map(|i| rlines[*i]).collect();
+            let got = match sut::run_batch(&rt, &sut::parse(rst[si]).unwrap(), &lines) {
+                Outcome::Ok(t) => Some(t.rows),
+                _ => None,
+            };
+            let same = match (&bases[si], &got) {
+                (Some(a), Some(b)) => a.len() == b.len() && a.iter().zip(b).all(|(x, y)| crate::refmodel::tuple_eq(x, y)),
+                (None, None) => true,
+                _ => false,
+            };
+            if !same {
+                col.fail(fail(
+                    format!("order-dependent:real-values:{}", si),
+                    format!("`{}` over REAL values incl. NaN / inf / signed zeros: result for line order {:?} differs from the result for the original order", rst[si], perm),
+                    json!({"law": "real", "stmt": si, "statement": rst[si], "perm": perm, "history": []}),
+                    json!(bases[si].as_ref().map(|r| rows_json(r))),
+                    json!(got.as_ref().map(|r| rows_json(r))),
+                    perm.len() as u64,
+                ));
+            }
+        });
+        col.layer("REAL values incl. NaN, inf, signed zeros (all permutations)", done, complete, json!({"lines": rlines, "statements": rst}));
+    }
+    // file order: the result over files [a, b] equals the result over [b, a] also when a file starts with a byte order
+    // mark, a blank line or a CR-terminated line
+    {
+        let ft = sut::make_tables("CREATE TABLE g(line = '^k=([a-z]+) v=(-?[0-9]+)$', line[1] => k TEXT, line[2] => v INT);").unwrap();
+        let st = sut::parse("SELECT k, COUNT(*), SUM(v), MIN(v), MAX(v) FROM g GROUP BY k").unwrap();
+        let firsts = ["k=a v=1", "\u{feff}k=a v=1", "", "k=a v=1\r", " k=a v=1", "k=a v=1 "];
+        let mut nf = 0u64;
+        for fa in firsts {
+            for fb in firsts {
+                let a = format!("{}\nk=b v=2\n", fa);
+                let b = format!("{}\nk=a v=5\nk=c v=7", fb);
+                nf += 1;
+                col.eval(2);
+                col.nontrivial(h64(&("file-order", fa, fb)));
+                let r1 = sut::run_files(&ft, &st, &[a.as_bytes(), b.as_bytes()], sut::FileRunOpts::default());
+                let r2 = sut::run_files(&ft, &st, &[b.as_bytes(), a.as_bytes()], sut::FileRunOpts::default());
+                let same = match (&r1, &r2) {
+                    (Outcome::Ok(x), Outcome::Ok(y)) => x.printed == y.printed && x.result.is_ok() == y.result.is_ok(),
+                    _ => false,
+                };
+                if !same {
+                    col.fail(fail(
+                        "file-order-law".into(),
+                        format!("the aggregate over files [a, b] differs from the one over [b, a] (a starts with {:?}, b starts with {:?})", fa, fb),
+                        json!({"law": "file-order", "first_a": fa, "first_b": fb, "history": []}),
+                        sut::outcome_json(&r1, |f| f.to_json()),
+                        sut::outcome_json(&r2, |f| f.to_json()),
+                        nf,
+                    ));
+                }
+            }
+        }
+        col.layer("file order law (files starting with a byte order mark / blank / CR-terminated / padded line)", nf, true, json!({"first_lines": firsts}));
+    }
     // the command line program over several files (also the same file named twice, in both orders): what it prints is
     // what the batch executor prints over the same sequence of contents
     {
@@ -483,6 +554,10 @@ pub fn replay(case: &J) -> Vec<Failure> {
     let hist: Vec<u8> = case["history"].as_array().unwrap().iter().map(|x| x.as_u64().unwrap() as u8).collect();
     match case["law"].as_str() {
         Some("perm") => perm_check(&tables, case["statement"].as_str().unwrap(), case["stmt"].as_u64().unwrap() as usize, &hist).0,
+        Some("real") | Some("file-order") => {
+            println!("note: these cases are replayed by re-running `./check C15 quick`");
+            vec![]
+        }
         Some("cli") => {
             println!("note: command-line cases are replayed by re-running `./check C15 quick`");
             vec![]
